@@ -228,3 +228,85 @@ Definition newHandlers (s : state) (n : nid) : list nid :=
 Definition rnp_spec (s : state) (n : nid) : res (state * option err) :=
   w <-! addAll (fun c => height (nd s c)) (pushlist s n) (heap s);
   Ok (afterLocal s n <| heap := w |> <| handlers := newHandlers s n |>, None).
+
+(** * 3. The invariant of a bind-free parallel pass (holds between blocks) *)
+Record pass_ok (s : state) : Prop := {
+  po_graph : graph_ok s;
+  po_heap : HeapSpec.inv (heap s);
+  po_queued : forall n, n ∈ Heap.ids (heap s) ->
+                is_Some (nodes s !! n) /\ Heap.hinOf (heap s) n = height (nd s n);
+  po_nolhs : forall n, is_lhs (nkind (nd s n)) = false;         (* no bind in the graph *)
+  po_hrange : forall n, -1 <= height (nd s n);
+  po_reads : forall n, 0 <= height (nd s n) -> reads_below s n (height (nd s n));
+  po_setDuring : setDuring s = [];
+  po_setRemoved : setRemoved s = []
+}.
+
+(** the plan has no action at all for any node function *)
+Definition quiet_all (p : plan) : Prop := forall n w, actions_of p n w = [].
+
+(** the nodes reported as updated: the update-handler events of a log *)
+Definition isUpdEv (e : event) : bool :=
+  match e with EvUpd _ | EvObsUpd _ _ => true | _ => false end.
+Definition updEvents (s : state) : list event := filter (fun e => isUpdEv e = true) (log s).
+
+(** * Boolean forms of the hypotheses (evaluated on generated histories and in the Examples;
+    their soundness is proved in ParProofs.v) *)
+Definition nodeIds (s : state) : list nid := map fst (map_to_list (nodes s)).
+
+Definition graph_okb (s : state) : bool :=
+  (0 <=? Heap.cnt (heap s)) && (0 <=? stabNum s)
+  && forallb (fun n => forallb (fun c => bool_decide (n ∈ parents (nd s c))) (children (nd s n))) (nodeIds s)
+  && forallb (fun c => forallb (fun q => height (nd s q) <? height (nd s c)) (parents (nd s c))) (nodeIds s)
+  && forallb (fun x => changedAt (nd s x) <=? stabNum s) (nodeIds s).
+
+Definition reads_belowb (s : state) (n : nid) (h : Z) : bool :=
+  forallb (fun a => match vsrc s a with Some m => height (nd s m) <? h | None => true end) (reads s n).
+
+Definition block_okb (s : state) (B : list nid) (h : Z) : bool :=
+  bool_decide (NoDup B) && (0 <=? h)
+  && forallb (fun n => bool_decide (is_Some (nodes s !! n)) && (height (nd s n) =? h)
+                       && negb (is_lhs (nkind (nd s n))) && reads_belowb s n h) B.
+
+Definition ibuckets (w : Heap.t) : list (nat * list nid) := imap (fun k b => (k, b)) (Heap.buckets w).
+
+Definition heap_invb (w : Heap.t) : bool :=
+  bool_decide (NoDup (Heap.ids w))
+  && forallb (fun '(n, x) => (0 <=? x) && bool_decide (n ∈ Heap.bucket w (Z.to_nat x))) (map_to_list (Heap.hin w))
+  && forallb (fun '(k, b) => forallb (fun n => bool_decide (Heap.hin w !! n = Some (Z.of_nat k))) b) (ibuckets w)
+  && (Heap.cnt w =? Z.of_nat (length (Heap.ids w)))
+  && (if 0 <? Heap.cnt w
+      then (0 <=? Heap.minH w) && (Heap.maxH w <? Z.of_nat (length (Heap.buckets w)))
+           && forallb (fun '(k, b) => match b with
+                                      | [] => true
+                                      | _ => (Heap.minH w <=? Z.of_nat k) && (Z.of_nat k <=? Heap.maxH w)
+                                      end) (ibuckets w)
+      else true).
+
+Definition pass_okb (s : state) : bool :=
+  graph_okb s && heap_invb (heap s)
+  && forallb (fun n => bool_decide (is_Some (nodes s !! n)) && (Heap.hinOf (heap s) n =? height (nd s n)))
+             (Heap.ids (heap s))
+  && forallb (fun n => negb (is_lhs (nkind (nd s n))) && (-1 <=? height (nd s n))
+                       && ((height (nd s n) <? 0) || reads_belowb s n (height (nd s n)))) (nodeIds s)
+  && bool_decide (setDuring s = []) && bool_decide (setRemoved s = []).
+
+(** * Example states (non-vacuity), reached by [Engine.run] *)
+(** two vars (0, 1), a map over each (2, 3), a second map over 3 (4), a map2 over both maps (5),
+    a cutoff (6) and an always node (7) on top; 6, 7 and 4 observed; one pass; both vars set *)
+Definition ex_ops : list op :=
+  [NewVar 1 false; NewVar 2 false; NewMap (Aff 1 1) 0%nat; NewMap (Aff 2 0) 1%nat;
+   NewMap (Aff 1 2) 3%nat; NewMap2 (Lin2 1 1 0) 2%nat 3%nat; NewCutoff CEq 5%nat; NewAlways 5%nat;
+   Observe 6%nat; Observe 7%nat; Observe 4%nat; ParStabilize []; SetVar 0%nat 5; SetVar 1%nat 7].
+
+Definition ex_state : res state := run (init 8) ex_ops.
+
+(** the same state in the middle of the next parallel pass: the block of the two vars done (in
+    queue order), the block of the two maps [2; 3] taken out of the heap *)
+Definition ex_mid : res (state * list nid) :=
+  s <-! ex_state;
+  let s := emit EvPassStart (s <| status := 1 |>) in
+  let '(b0, w0) := Heap.takeMinBlock (heap s) in
+  '(s1, _, _) <-! run_block 0 [] (s <| heap := w0 |>) b0;
+  let '(b1, w1) := Heap.takeMinBlock (heap s1) in
+  Ok (s1 <| heap := w1 |>, b1).
